@@ -169,7 +169,7 @@ func widenAfterWrap(c *Ctx, pkgs map[string]bool, floor int) {
 	sites := narrowSites(c, pkgs)
 	var w *prove.World
 	if len(sites) > 0 {
-		w = prove.NewWorld(p)
+		w = sharedWorld(p)
 	}
 	for _, s := range sites {
 		fi := w.Info(s.fn)
